@@ -156,7 +156,7 @@ def run_program(res: Result, lab, prog, label, hid):
             Y.close()
             from vlib import pairs
 
-            pairs.wait_until(lambda: "<end>" in got, 6.0)
+            pairs.wait_until(lambda: "<end>" in got, 15.0)
             if got != [(hid, i) for i in range(p)] + ["<end>"]:
                 res.violation(m("callback-transcript-wrong"), f"{label}: {short(got)}")
         elif kind == "body_peer_dropped":
@@ -185,8 +185,13 @@ def run_program(res: Result, lab, prog, label, hid):
                 gc.collect()
                 from vlib import pairs
 
-                pairs.wait_until(lambda: "<end>" in got, 6.0)
-                pairs.wait_until(lambda: warned, 1.0)
+                pairs.wait_until(lambda: "<end>" in got, 15.0)
+                # the warning is emitted either when the close arrives (channel object already collected) or when the
+                # object finally goes away (a receiver-thread frame may still hold it for a moment): poll with gc
+                t_end = time.monotonic() + 15.0
+                while not warned and time.monotonic() < t_end:
+                    gc.collect()
+                    time.sleep(0.02)
             finally:
                 gb.RemoteError.warn = orig_warn
             if got != [(hid, i) for i in range(p)] + ["<end>"]:
@@ -261,7 +266,7 @@ def run_program(res: Result, lab, prog, label, hid):
                     break
             from vlib import pairs
 
-            pairs.wait_until(lambda: len(boom.calls) >= p + 1, 6.0)
+            pairs.wait_until(lambda: len(boom.calls) >= p + 1, 15.0)
             if prog["dropped"]:
                 # the dropped side sent LAST_MESSAGE: the peer is in the documented send-only state and its
                 # waitclose() returns at once; give the error frame time to arrive before asking
